@@ -410,6 +410,22 @@ func emissionSweep(res *ev.Result) {
 			check(fmt.Sprintf("sweep-exception-fc%d-c%d", fc, code), packet.ErrorResponseRTU{UnitID: uint8(fc ^ code), Function: uint8(fc), Code: uint8(code)}.Bytes())
 		}
 	}
+	// the same exception emitted for every unit in turn (and back), for every function: what is emitted for one unit
+	// must not depend on what was emitted for another
+	for fc := 1; fc < 256; fc++ {
+		codes := []int{1}
+		if fc == 1 || fc == 3 || fc == 16 || fc == 0x2B || fc == 0x83 {
+			codes = []int{1, 2, 3, 4, 6, 11}
+		}
+		for _, code := range codes {
+			for u := 0; u < 256; u++ {
+				check(fmt.Sprintf("sweep-exception-units-fc%d-c%d-u%d", fc, code, u), packet.ErrorResponseRTU{UnitID: uint8(u), Function: uint8(fc), Code: uint8(code)}.Bytes())
+			}
+			for u := 255; u >= 0; u -= 3 {
+				check(fmt.Sprintf("sweep-exception-units-fc%d-c%d-u%d-back", fc, code, u), packet.ErrorResponseRTU{UnitID: uint8(u), Function: uint8(fc), Code: uint8(code)}.Bytes())
+			}
+		}
+	}
 	res.Add("emission_frames", n)
 	res.Add("evaluations", n)
 	res.Axis("emitted RTU frames: request sizes over the whole accepted count axis, response payload lengths 1..250, all 256x256 exceptions", "full", n)
@@ -445,11 +461,48 @@ func specialStates(res *ev.Result) {
 	res.Axis("continuations from 6 special remainders", "all 2-byte continuations, with and without interposed zero bytes", n)
 }
 
+// acceptanceSweep: frames built by the reference (not by the library) with a CORRECT trailer, over every 16-bit data
+// value - so that every trailer value occurs, in particular trailers ending in 0xFF / 0x00 and trailers equal to data
+// bytes: the CRC-verifying parsers must accept them exactly like the plain parsers do.
+func acceptanceSweep(res *ev.Result) {
+	var n int64
+	type mkf struct {
+		name    string
+		request bool
+		f       func(v uint16) []byte
+	}
+	hi := func(v uint16) byte { return byte(v >> 8) }
+	lo := func(v uint16) byte { return byte(v) }
+	shapes := []mkf{
+		{"resp-fc3-1reg", false, func(v uint16) []byte { return []byte{0x01, 3, 2, hi(v), lo(v)} }},
+		{"resp-fc1-2bytes", false, func(v uint16) []byte { return []byte{0x11, 1, 2, hi(v), lo(v)} }},
+		{"resp-fc6-echo", false, func(v uint16) []byte { return []byte{0x21, 6, 0, 9, hi(v), lo(v)} }},
+		{"resp-fc3-2reg", false, func(v uint16) []byte { return []byte{0xF7, 3, 4, hi(v), lo(v), lo(v), hi(v)} }},
+		{"req-fc6", true, func(v uint16) []byte { return []byte{0x01, 6, 0, 9, hi(v), lo(v)} }},
+		{"req-fc3-addr", true, func(v uint16) []byte { return []byte{0x0A, 3, hi(v), lo(v), 0, 1} }},
+	}
+	ev.Par(len(shapes), runtime.NumCPU(), func(i int) {
+		sh := shapes[i]
+		for v := 0; v < 65536; v++ {
+			body := sh.f(uint16(v))
+			crc := spec.CRC(body)
+			frame := append(append([]byte(nil), body...), byte(crc), byte(crc>>8))
+			c := trailerCase{Shape: "accept-" + sh.name, Frame: fmt.Sprintf("%x", frame), Request: sh.request, Trailer: int(crc)}
+			evalTrailer(c, frame, res)
+		}
+		atomic.AddInt64(&n, 65536)
+	})
+	res.Add("evaluations", n)
+	res.Add("acceptance_cases", n)
+	res.Axis("frames with a correct trailer over every 16-bit data value (6 shapes)", "full", n)
+}
+
 func run(tier string, shard, nsh int, res *ev.Result) {
 	if err := spec.SelfCheck(); err != nil {
 		panic(err)
 	}
 	emissionSweep(res)
+	acceptanceSweep(res)
 	specialStates(res)
 	stateSearch(res)
 	res.Axis("crc state x input byte (transitions executed on packet.CRC16)", "full", 1<<24)
